@@ -40,6 +40,15 @@ def _project_type(t, rel):
         out["parts"] = [sec(t)]
     return out
 
+_SHARED = {}      # (role, directory) -> the list object that the "shared" calls of this process pass
+
+def _arg(call, role, dirs):
+    """The directory argument of a call: a fresh list of strings, or the process-wide list of Path objects for these directories."""
+    from pathlib import Path
+    if call.get("args", "fresh") != "shared":
+        return list(dirs)
+    return _SHARED.setdefault((role,) + tuple(dirs), [Path(x) for x in dirs])
+
 def _do_call(call, base):
     import pydsdl
     v, d, loc, api = call["var"], call["dep"], call["loc"], call["api"]
@@ -68,12 +77,14 @@ def _do_call(call, base):
         return os.path.relpath(p, root)
     try:
         if api == "namespace":
-            direct, trans = pydsdl.read_namespace(nsdir, [depdir], print_output_handler=ph), None
+            direct, trans = pydsdl.read_namespace(nsdir, _arg(call, "lk", [depdir]), print_output_handler=ph), None
         elif api == "files":
-            direct, trans = pydsdl.read_files([os.path.join(nsdir, "User.1.0.dsdl")], [nsdir], [depdir], print_output_handler=ph)
+            direct, trans = pydsdl.read_files([os.path.join(nsdir, "User.1.0.dsdl")], _arg(call, "rt", [nsdir]), _arg(call, "lk", [depdir]),
+                                              print_output_handler=ph)
         else:
             direct, trans = pydsdl.read_files([os.path.join(depdir, "Thing.1.0.dsdl"), os.path.join(nsdir, "User.1.0.dsdl"),
-                                               os.path.join(nsdir, "Svc.1.0.dsdl")], [nsdir, depdir], [], print_output_handler=ph)
+                                               os.path.join(nsdir, "Svc.1.0.dsdl")], _arg(call, "rt", [nsdir, depdir]), _arg(call, "lk0", []),
+                                              print_output_handler=ph)
         return {"ok": True, "direct": [_project_type(t, _rel) for t in direct],
                 "transitive": None if trans is None else [_project_type(t, _rel) for t in trans], "prints": prints}
     except pydsdl.FrontendError as ex:
@@ -122,12 +133,15 @@ def alone(call):
 
 @core.safe
 def worker(arg):
-    block, mod = arg
+    block, mod = arg[0], arg[1]
+    only_shared = len(arg) > 2 and arg[2]        # C10: histories in which the calls share directory-argument objects
     st = tlaval.parse_state_block(block)
     hist = [dict(c) for c in st["case"]]
     if len(hist) < 2:
         return None
     if len(hist) >= 3 and not core.sampled(block, mod):
+        return None
+    if only_shared and (sum(1 for c in hist if c["args"] == "shared") < 2 or core.pick(block, "c10sess", only_shared) != 0):
         return None
     import pydsdl  # noqa - imported in the parent of the forked children, like an application would have
     obs = run_history(hist)
